@@ -361,11 +361,17 @@ except OSError:     # pragma: no cover
     _LIBC = None
 
 
+ADDRESS_SPACE_LIMIT = None      # bytes; set by a check (C07) so that an allocation sized by a damaged length field fails
+
+
 def _child_setup():
     """runs in the forked child before exec: if the driver worker dies (pool.terminate, crash, Ctrl-C) the
     simulated process is killed with it -- a hung s4 must never outlive its run and burn a core"""
     if _LIBC is not None:
         _LIBC.prctl(1, signal.SIGKILL)      # PR_SET_PDEATHSIG
+    if ADDRESS_SPACE_LIMIT:
+        import resource
+        resource.setrlimit(resource.RLIMIT_AS, (ADDRESS_SPACE_LIMIT, ADDRESS_SPACE_LIMIT))
 
 FINGERPRINTS = None     # when a list: every execute() appends (stdout sha, rc, normalised trace sha, tmp_left count)
 _TMPNAME = re.compile(r"s4-[A-Za-z0-9_]{6}")
